@@ -3,7 +3,7 @@
 //! public API (operators, inherent methods, the `Quire` trait, `From` impls).
 
 use crate::posit_ref::QT;
-use softposit::{AssociatedQuire, Quire, P16E1, P32E2, P8E0, Q16E1, Q32E2, Q8E0};
+use softposit::{AssociatedQuire, PxE2, Quire, P16E1, P32E2, P8E0, Q16E1, Q32E2, Q8E0};
 
 /// The spellings the crate offers for accumulating into a quire.
 #[derive(Clone, Copy, PartialEq, Eq, Debug, Hash, PartialOrd, Ord)]
@@ -149,8 +149,93 @@ fn unimg32(i: &Img) -> [u64; 8] {
     *i
 }
 
+/// Generic-width operand spellings of the Q32E2 quire (`quire_add_sub_x!`, `quire_add_sub_array_x!`,
+/// `impl Quire<PxE2<N>> for Q32E2`, `impl From<PxE2<N>> for Q32E2`): a `PxE2<N>` value is the
+/// P32E2 value with the same left-aligned bit pattern, so accumulating it must change the quire
+/// exactly as the P32E2 spelling does and the reference model needs no second decode. Whether an
+/// event goes through these spellings, and at which width, is a pure function of its operand
+/// patterns (so events, replay files and the minimiser are unchanged): odd parity of the xor of
+/// the operands selects the generic path, and N is the narrowest width in 2..=32 whose unused low
+/// bits are zero in every operand. Rounding the quire to an N-bit posit belongs to C14 and is not
+/// observed here.
+pub fn px_width(qt: QT, o: &[u32]) -> Option<u32> {
+    if qt != QT::Q32 || o.is_empty() {
+        return None;
+    }
+    let x = o.iter().fold(0u32, |a, &b| a ^ b);
+    if x.count_ones() & 1 == 0 {
+        return None;
+    }
+    let or = o.iter().fold(0u32, |a, &b| a | b);
+    Some((32 - or.trailing_zeros().min(32)).clamp(2, 32))
+}
+
+fn px_acc_n<const N: u32>(q: &mut Q32E2, sp: Sp, sub: bool, o: &[u32]) {
+    let p = |i: usize| PxE2::<N>::from_bits(o[i]);
+    match (sp, sub) {
+        (Sp::Prod, false) => *q += (p(0), p(1)),
+        (Sp::Prod, true) => *q -= (p(0), p(1)),
+        // there is no inherent generic-width add_product; both go through the trait
+        (Sp::ProdM, false) | (Sp::ProdT, false) => <Q32E2 as Quire<PxE2<N>>>::add_product(q, p(0), p(1)),
+        (Sp::ProdM, true) | (Sp::ProdT, true) => <Q32E2 as Quire<PxE2<N>>>::sub_product(q, p(0), p(1)),
+        (Sp::One, false) => *q += p(0),
+        (Sp::One, true) => *q -= p(0),
+        (Sp::T2, false) => *q += (p(0), (p(1), p(2))),
+        (Sp::T2, true) => *q -= (p(0), (p(1), p(2))),
+        (Sp::T3, false) => *q += (p(0), (p(1), p(2), p(3))),
+        (Sp::T3, true) => panic!("harness: no `-=` spelling for (a,(b,c,d))"),
+        (Sp::Q22, false) => *q += ((p(0), p(1)), (p(2), p(3))),
+        (Sp::Q22, true) => *q -= ((p(0), p(1)), (p(2), p(3))),
+        (Sp::Arr1, false) => *q += (p(0), [p(1)]),
+        (Sp::Arr1, true) => *q -= (p(0), [p(1)]),
+        (Sp::Arr2, false) => *q += (p(0), [p(1), p(2)]),
+        (Sp::Arr2, true) => *q -= (p(0), [p(1), p(2)]),
+        (Sp::Arr3, false) => *q += (p(0), [p(1), p(2), p(3)]),
+        (Sp::Arr3, true) => *q -= (p(0), [p(1), p(2), p(3)]),
+        (Sp::Arr4, false) => *q += (p(0), [p(1), p(2), p(3), p(4)]),
+        (Sp::Arr4, true) => *q -= (p(0), [p(1), p(2), p(3), p(4)]),
+    }
+}
+
+fn px_load_n<const N: u32>(p: u32, via: u8) -> Q32E2 {
+    let p = PxE2::<N>::from_bits(p);
+    match via {
+        1 => Q32E2::from(p),
+        _ => <Q32E2 as Quire<PxE2<N>>>::from_posit(p),
+    }
+}
+
+macro_rules! px_dispatch {
+    ($n:expr, $f:ident, $args:tt, $($w:literal)*) => {
+        match $n { $($w => $f::<$w> $args,)* _ => unreachable!("harness: generic width out of 2..=32") }
+    };
+}
+
+fn px_acc32(q: &mut Q32E2, sp: Sp, sub: bool, o: &[u32]) -> bool {
+    match px_width(QT::Q32, &o[..sp.arity()]) {
+        None => false,
+        Some(n) => {
+            px_dispatch!(n, px_acc_n, (q, sp, sub, o),
+                2 3 4 5 6 7 8 9 10 11 12 13 14 15 16 17 18 19 20 21 22 23 24 25 26 27 28 29 30 31 32);
+            true
+        }
+    }
+}
+fn px_load32(p: u32, via: u8) -> Option<Q32E2> {
+    px_width(QT::Q32, &[p]).map(|n| {
+        px_dispatch!(n, px_load_n, (p, via),
+            2 3 4 5 6 7 8 9 10 11 12 13 14 15 16 17 18 19 20 21 22 23 24 25 26 27 28 29 30 31 32)
+    })
+}
+fn px_acc_none<Q>(_q: &mut Q, _sp: Sp, _sub: bool, _o: &[u32]) -> bool {
+    false
+}
+fn px_load_none<Q>(_p: u32, _via: u8) -> Option<Q> {
+    None
+}
+
 macro_rules! impl_sut {
-    ($Q:ty, $P:ty, $U:ty, $qt:expr, $toimg:ident, $fromimg:ident) => {
+    ($Q:ty, $P:ty, $U:ty, $qt:expr, $toimg:ident, $fromimg:ident, $pxacc:ident, $pxload:ident) => {
         impl Sut for $Q {
             const QT: QT = $qt;
 
@@ -198,6 +283,9 @@ macro_rules! impl_sut {
                 <$P>::from(self).to_bits() as u32
             }
             fn load(p: u32, via: u8) -> Self {
+                if let Some(q) = $pxload(p, via) {
+                    return q;
+                }
                 let p = <$P>::from_bits(p as $U);
                 match via {
                     0 => <$Q>::from_posit(p),
@@ -218,6 +306,9 @@ macro_rules! impl_sut {
                 }
             }
             fn acc(&mut self, sp: Sp, sub: bool, o: &[u32]) {
+                if $pxacc(self, sp, sub, o) {
+                    return;
+                }
                 let p = |i: usize| <$P>::from_bits(o[i] as $U);
                 match (sp, sub) {
                     (Sp::Prod, false) => *self += (p(0), p(1)),
@@ -328,6 +419,6 @@ macro_rules! impl_sut {
     };
 }
 
-impl_sut!(Q8E0, P8E0, u8, QT::Q8, img8, unimg8);
-impl_sut!(Q16E1, P16E1, u16, QT::Q16, img16, unimg16);
-impl_sut!(Q32E2, P32E2, u32, QT::Q32, img32, unimg32);
+impl_sut!(Q8E0, P8E0, u8, QT::Q8, img8, unimg8, px_acc_none, px_load_none);
+impl_sut!(Q16E1, P16E1, u16, QT::Q16, img16, unimg16, px_acc_none, px_load_none);
+impl_sut!(Q32E2, P32E2, u32, QT::Q32, img32, unimg32, px_acc32, px_load32);
